@@ -178,6 +178,12 @@ def handle (j : Json) : Except String Json := do
           | .ok g => pure g
           | .error e => throw s!"build: {e.msg}")
       | .error e => throw s!"build: {e.msg}"
+    -- … and, next to a single-rooted tree, a second tree called `<nm>_1`
+    let g0 ← if kind == "tree" && dims.head? == some 1 then
+        (match g0.addNodesAsTree (nm ++ "_1") [2, 2] 0 true 3 0 with
+          | .ok g => pure g
+          | .error e => throw s!"build: {e.msg}")
+      else pure g0
     let g ← match (if kind == "tree" then g0.addNodesAsTree nm dims 0 true (dims.length + 1) 0
                      else g0.addNodesAsArray nm dims .router 0 false) with
       | .ok g => pure g
